@@ -251,31 +251,8 @@ def rule_foldpure(P) -> RuleResult:
     reg = registry.get(P)
     m = P.module(CO)
     comp = P.cls(CO, 'Compiler')
-    sites = 0
-    for name in ('_function', '_unaryop', '_binaryop'):
-        fi = comp.methods.get(name)
-        if fi is None:
-            raise AnalysisError(f'anchor vanished: Compiler.{name}')
-        for n in ast.walk(fi.node):
-            if isinstance(n, ast.If) and any(isinstance(x, ast.Return) and 'EvalConstant(' in unparse(x) and '(None)' in unparse(x)
-                                             for x in n.body):
-                sites += 1
-                t = unparse(n.test)
-                construct = f'{fi.fq}:constant-folding'
-                if 'EvalConstant' not in t or 'isinstance' not in t:
-                    res.fail(construct, 'foldpure:operands', f'folding must require constant operands; condition is `{t}`', loc(fi, n))
-                    continue
-                if name == '_function':
-                    if 'function.pure' not in t or 'all(' not in t:
-                        res.fail(construct, 'foldpure:pure', 'a function call may be folded only when the function is pure and all '
-                                 f'operands are constants; condition is `{t}`', loc(fi, n))
-                        continue
-                if name == '_binaryop' and ('left' not in t or 'right' not in t or ' and ' not in t):
-                    res.fail(construct, 'foldpure:operands', f'both operands must be constants; condition is `{t}`', loc(fi, n))
-                    continue
-                res.ok({'site': fi.fq, 'condition': t})
-    if sites < 3:
-        raise AnalysisError(f'only {sites} folding sites found')
+    from .sx_compiler import fold_cases
+    fold_cases(P, res)
     # purity as declared: not pass_row and not pass_context; aggregates impure
     for f in reg.funcs:
         if f.kind == 'function':
